@@ -83,11 +83,28 @@ import (
 
 const (
 	c07Watchdog = 8 * time.Second // Unsubscribe / IsSubscribed / barrier: a hang, not a latency bound
-	c07Stall    = 3 * time.Second // Unsubscribe / IsSubscribed without any callback progress for this long: hung
 	c07Grace    = 25 * time.Millisecond
 	c07Op       = "Evt"
 	c07OtherOp  = "Other"
 )
+
+// c07Stall: Unsubscribe / IsSubscribed / a barrier without any callback progress for this long counts as
+// "stalled". On a machine shared with many other checks a stall is not yet a verdict: the scenario is then
+// re-run alone with the long window (C07_STALL_MS, c07Retry) and only that run decides.
+var c07Stall = 3 * time.Second
+
+// c07StallEff: the window of the scenario that is running (scenarios of a child run one after the other):
+// c07Stall, stretched when the machine answers slowly (c07Run).
+var c07StallEff = c07Stall
+
+const (
+	c07StallRerun = 12 * time.Second
+	c07MaxReruns  = 4       // re-runs that did NOT come back clean, per harness process: after that, expiries are reported as they are
+	c07MarkerBase = 1 << 30 // tags of the barrier markers
+	c07Quiescence = time.Second
+)
+
+var errC07Marker = fmt.Errorf("c07 barrier marker")
 
 var (
 	c07NatsOnce  sync.Once
@@ -395,13 +412,15 @@ type c07SubRes struct {
 }
 
 type c07Result struct {
-	known     string // id of a known finding this run ran into (the scenario is re-run)
-	where     string // where the transport's and the stomp client's goroutines are parked when Unsubscribe hangs
-	subs      []c07SubRes
-	delivered []c07Delivery // = subs[0] (single-subscription lines)
-	cb, errs  int
-	unsub     string // none | ok | blocked | err
-	fails     []string
+	barrierMax time.Duration // the longest barrier of the scenario (how late the machine lets a marker arrive)
+	retry      string        // a stall window expired: what would be reported — decided by a re-run alone with the long window
+	known      string        // id of a known finding this run ran into (the scenario is re-run)
+	where      string        // where the transport's and the stomp client's goroutines are parked when Unsubscribe hangs
+	subs       []c07SubRes
+	delivered  []c07Delivery // = subs[0] (single-subscription lines)
+	cb, errs   int
+	unsub      string // none | ok | blocked | err
+	fails      []string
 }
 
 func tagsOf(ds []c07Delivery) []int {
@@ -713,7 +732,7 @@ func c07Stalled(progress *int64, f func()) string {
 		case <-tick.C:
 			if n := atomic.LoadInt64(progress); n != last {
 				last, lastAt = n, time.Now()
-			} else if time.Since(lastAt) > c07Stall {
+			} else if time.Since(lastAt) > c07StallEff {
 				return "blocked"
 			}
 		}
@@ -764,23 +783,34 @@ func c07Run(s c07Scn) *c07Result {
 	}
 
 	type subState struct {
-		topicID    int
-		cbf        frugal.FAsyncCallback
-		tr         frugal.FSubscriberTransport
-		delivered  []c07Delivery
-		cb, errs   int64
-		owed       int64        // callbacks owed so far (messages on its topic with >= 4 bytes, while subscribed)
-		valid      []int        // V tags published on its topic while subscribed, in order
-		must       map[int]bool // … before a barrier
-		subscribed bool
-		unsub      string
+		topicID       int
+		marker        int64 // last barrier marker its handler saw
+		foreignMarker int64 // 1 + topic of a marker of ANOTHER topic its handler saw
+		cbf           frugal.FAsyncCallback
+		tr            frugal.FSubscriberTransport
+		delivered     []c07Delivery
+		cb, errs      int64
+		owed          int64        // callbacks owed so far (messages on its topic with >= 4 bytes, while subscribed)
+		valid         []int        // V tags published on its topic while subscribed, in order
+		must          map[int]bool // … before a barrier
+		subscribed    bool
+		unsub         string
 	}
 	subs := make([]*subState, len(topicIDs))
+	subscribeStart := time.Now()
 	for k, tid := range topicIDs {
 		st := &subState{topicID: tid, must: map[int]bool{}, unsub: "none"}
 		subs[k] = st
 		handler := func(fctx frugal.FContext, p *c07Payload) error {
 			tag := int(p.Tag)
+			if tag >= c07MarkerBase {
+				// a barrier marker (harness traffic, not part of the case): remember it, count nothing
+				if (tag-c07MarkerBase)%64 != st.topicID {
+					atomic.StoreInt64(&st.foreignMarker, int64(1+(tag-c07MarkerBase)%64))
+				}
+				atomic.StoreInt64(&st.marker, int64(tag))
+				return errC07Marker
+			}
 			bad := ""
 			if !bytes.Equal(p.Blob, c07Blob(tag)) {
 				bad = "payload"
@@ -810,6 +840,10 @@ func c07Run(s c07Scn) *c07Result {
 		cb := func(tr thrift.TTransport) error {
 			atomic.AddInt64(&startCount, 1)
 			err := inner(tr)
+			if err == errC07Marker {
+				atomic.AddInt64(&cbTotal, 1) // progress, but not a callback of the case
+				return nil
+			}
 			if err != nil {
 				atomic.AddInt64(&st.errs, 1)
 			}
@@ -835,6 +869,16 @@ func c07Run(s c07Scn) *c07Result {
 			fail("IsSubscribed false after Subscribe (subscription %d)", k)
 		}
 	}
+	// how responsive the machine is right now: one Subscribe + broker round trip normally takes well under a
+	// millisecond; the stall window of this scenario is at least 40 such round trips (at most 20 s)
+	stall := c07Stall
+	if rtt := time.Since(subscribeStart) / time.Duration(len(subs)); 40*rtt > stall {
+		stall = 40 * rtt
+		if stall > 20*time.Second {
+			stall = 20 * time.Second
+		}
+	}
+	c07StallEff = stall
 	client := frugal.NewFScopeClient(provider)
 	rawPub := conns.pubF.GetTransport()
 	if err := client.Open(); err != nil {
@@ -870,26 +914,69 @@ func c07Run(s c07Scn) *c07Result {
 			}
 		}
 	}
-	// barrier: wait until every callback owed so far has run; gives up (and reports) when NO callback of any
-	// subscription has completed for c07Stall — a slow subscriber is making progress, a wedged one is not.
-	// After a failed barrier the scenario stops: what follows would only wait again.
-	barrierFailed := false
+	// barrier: a MARKER message is published on every topic that has a live subscription; the broker keeps a
+	// topic's messages in order, so a subscription that has seen its marker has been handed everything that
+	// was published before it. Waiting for the marker is progress-based (no callback of any subscription for
+	// c07Stall): an expiry is NOT a verdict on a loaded machine — the case is marked for a re-run alone with
+	// the long window (c07Retry). Once the marker was seen, a callback that is still missing is a LOST
+	// delivery, whatever the load: a single worker has run everything before the marker by then; several
+	// workers get a quiescence window for callbacks still running. After a failed barrier the scenario stops.
+	barrierFailed, barrierNo := false, 0
 	barrier := func() {
-		last, lastAt := atomic.LoadInt64(&cbTotal), time.Now()
+		barrierNo++
+		want := map[int]int64{}
+		for _, st := range subs {
+			if st.subscribed {
+				if _, ok := want[st.topicID]; !ok {
+					tag := c07MarkerBase + barrierNo*64 + st.topicID
+					want[st.topicID] = int64(tag)
+					if err := publishBlob(topicName(st.topicID), c07Op, tag, false, nil); err != nil {
+						fail("Publish returned %v", err)
+					}
+				}
+			}
+		}
+		last, lastAt, start := atomic.LoadInt64(&cbTotal), time.Now(), time.Now()
+		defer func() {
+			if d := time.Since(start); d > res.barrierMax {
+				res.barrierMax = d
+			}
+		}()
 		for k, st := range subs {
 			if !st.subscribed {
 				continue
 			}
-			for atomic.LoadInt64(&st.cb) < st.owed {
-				time.Sleep(100 * time.Microsecond)
+			for atomic.LoadInt64(&st.marker) != want[st.topicID] {
+				if time.Since(start) < 5*time.Millisecond {
+					time.Sleep(100 * time.Microsecond)
+				} else {
+					time.Sleep(time.Millisecond) // do not add to the load that makes the marker late
+				}
 				if n := atomic.LoadInt64(&cbTotal); n != last {
 					last, lastAt = n, time.Now()
-				} else if time.Since(lastAt) > c07Stall {
-					break
+				} else if time.Since(lastAt) > stall || time.Since(start) > 10*stall {
+					res.retry = fmt.Sprintf("a subscribed transport did not hand over every message: %d of %d callbacks ran and the barrier marker did not arrive within the watchdog (subscription %d)", atomic.LoadInt64(&st.cb), st.owed, k)
+					barrierFailed = true
+					return
+				}
+			}
+		}
+		for k, st := range subs {
+			if !st.subscribed {
+				continue
+			}
+			if s.w > 1 {
+				for atomic.LoadInt64(&st.cb) < st.owed {
+					time.Sleep(100 * time.Microsecond)
+					if n := atomic.LoadInt64(&cbTotal); n != last {
+						last, lastAt = n, time.Now()
+					} else if time.Since(lastAt) > c07Quiescence+4*time.Duration(s.delayUs)*time.Microsecond {
+						break
+					}
 				}
 			}
 			if got := atomic.LoadInt64(&st.cb); got < st.owed {
-				fail("a subscribed transport did not hand over every message: %d of %d callbacks ran within the watchdog (subscription %d)", got, st.owed, k)
+				fail("a subscribed transport did not hand over every message: %d of %d callbacks ran although the marker published after them arrived (subscription %d): lost", got, st.owed, k)
 				barrierFailed = true
 				return
 			}
@@ -999,7 +1086,8 @@ func c07Run(s c07Scn) *c07Result {
 					// not frugal's: KNOWN_FINDINGS gostomp-unsubscribe-lost-wakeup
 					res.known = c07KnownLostWakeup
 				} else {
-					fail("Unsubscribe did not return (no progress within the watchdog)")
+					// decided by the re-run alone with the long window
+					res.retry = "Unsubscribe did not return (no progress within the watchdog)"
 				}
 			case out != "":
 				st.unsub = out
@@ -1010,7 +1098,7 @@ func c07Run(s c07Scn) *c07Result {
 			default:
 				st.unsub = "ok"
 			}
-			if io := <-isC; io != "" && res.known == "" {
+			if io := <-isC; io != "" && res.known == "" && res.retry == "" {
 				fail("IsSubscribed %s while Unsubscribe was running", io)
 			}
 			if st.unsub == "ok" {
@@ -1029,7 +1117,7 @@ func c07Run(s c07Scn) *c07Result {
 				wedged = true
 			}
 		}
-		if wedged || barrierFailed || res.known != "" {
+		if wedged || barrierFailed || res.known != "" || res.retry != "" {
 			break // the subscriber transport is wedged; nothing after this is meaningful
 		}
 	}
@@ -1038,12 +1126,12 @@ func c07Run(s c07Scn) *c07Result {
 	if err := conns.fence(); err != nil {
 		fail("harness: fence: %v", err)
 	}
-	if !wedged && !barrierFailed && res.known == "" {
+	if !wedged && !barrierFailed && res.known == "" && res.retry == "" {
 		barrier()
 	}
 	time.Sleep(c07Grace + time.Duration(s.delayUs)*time.Microsecond)
 	for _, st := range subs {
-		if st.subscribed && res.known == "" && !wedged {
+		if st.subscribed && res.known == "" && res.retry == "" && !wedged {
 			var e error
 			live := liveSubs()
 			st.subscribed = false
@@ -1053,6 +1141,9 @@ func c07Run(s c07Scn) *c07Result {
 			}
 			if o == "blocked" && c07LostWakeup(live) {
 				res.known = c07KnownLostWakeup
+			} else if o == "blocked" {
+				res.retry = "final Unsubscribe: blocked <nil>"
+				wedged = true
 			} else if o != "" || e != nil {
 				fail("final Unsubscribe: %s %v", o, e)
 				wedged = true
@@ -1069,6 +1160,9 @@ func c07Run(s c07Scn) *c07Result {
 
 	// ---- oracle on every subscription's delivery list
 	for k, st := range subs {
+		if fm := atomic.LoadInt64(&st.foreignMarker); fm != 0 {
+			fail("handler invoked for tag %d, the barrier marker of topic %d (subscription %d is on topic %d): a message of another topic was delivered", c07MarkerBase, fm-1, k, st.topicID)
+		}
 		who := ""
 		if len(subs) > 1 {
 			who = fmt.Sprintf(" (subscription %d, topic %d)", k, st.topicID)
@@ -1349,6 +1443,8 @@ type c07Out struct {
 	Unsub     string   `json:"unsub"`
 	Where     string   `json:"where,omitempty"`
 	Known     string   `json:"known,omitempty"`
+	Retry     string   `json:"retry,omitempty"`
+	BarrierMs int64    `json:"barrier_ms,omitempty"`
 }
 
 func (s c07Scn) childLine() string {
@@ -1388,6 +1484,9 @@ func c07ParseScn(args []string) (c07Scn, bool) {
 }
 
 func runC07Child(r *Rng, n int) {
+	if ms, err := strconv.Atoi(os.Getenv("C07_STALL_MS")); err == nil && ms > 0 {
+		c07Stall = time.Duration(ms) * time.Millisecond
+	}
 	sc := bufio.NewScanner(os.Stdin)
 	sc.Buffer(make([]byte, 1<<20), 1<<26)
 	w := bufio.NewWriter(os.Stdout)
@@ -1399,7 +1498,7 @@ func runC07Child(r *Rng, n int) {
 		} else {
 			res := c07Run(s)
 			line, real := s.line(res)
-			o = c07Out{Line: line, Real: real, Fails: res.fails, Delivered: len(res.delivered), Unsub: res.unsub, Where: res.where, Known: res.known}
+			o = c07Out{Line: line, Real: real, Fails: res.fails, Delivered: len(res.delivered), Unsub: res.unsub, Where: res.where, Known: res.known, Retry: res.retry, BarrierMs: int64(res.barrierMax / time.Millisecond)}
 		}
 		b, _ := json.Marshal(o)
 		w.Write(b)
@@ -1425,6 +1524,9 @@ func c07Chunk(scns []c07Scn, outs []c07Out) {
 		}
 		cmd := exec.Command(os.Args[0], "c07child")
 		cmd.Env = append(os.Environ(), "C07_NATS_URL="+natsURL, "C07_STOMP_ADDR="+stompAddr)
+		if c07ChildStall > 0 {
+			cmd.Env = append(cmd.Env, fmt.Sprintf("C07_STALL_MS=%d", c07ChildStall/time.Millisecond))
+		}
 		cmd.Stdin = &in
 		var stderr bytes.Buffer
 		cmd.Stderr = &stderr
@@ -1545,6 +1647,16 @@ func c07Report(s c07Scn, o c07Out) {
 	}
 	StatN("delivered", o.Delivered)
 	Stat("unsub:" + o.Unsub)
+	switch ms := o.BarrierMs; {
+	case ms < 100:
+		Stat("slowest-barrier:<0.1s")
+	case ms < 1000:
+		Stat("slowest-barrier:0.1-1s")
+	case ms < 3000:
+		Stat("slowest-barrier:1-3s")
+	default:
+		Stat("slowest-barrier:>3s")
+	}
 	ln := o.Line
 	if len(ln) > 300 {
 		ln = ln[:300] + "…"
@@ -1569,6 +1681,20 @@ func c07Class(f string) string {
 
 // c07Retry re-runs (up to 3 times) the scenarios that ran into a known finding of the environment and
 // reports the finding; what is left after the retries is reported as it is.
+var (
+	c07ChildStall time.Duration // stall window handed to the children of a re-run (0: the default)
+	c07Reruns     int           // re-runs after an expired stall window, per harness process
+)
+
+// c07Retry re-runs the scenarios that did not reach a verdict:
+//   - a known finding of the ENVIRONMENT (go-stomp's lost wake-up): reported as KNOWN-FINDING, re-run up to 3 times;
+//   - an expired stall window (barrier marker / Unsubscribe not back without any callback progress for c07Stall):
+//     on a machine shared with other checks that is not a verdict. The scenario is re-run ALONE (all other
+//     scenarios of this process have finished) with the long window c07StallRerun; what that run shows is
+//     what is reported — clean, or the failure. After c07MaxReruns re-runs that were not clean, further
+//     expiries are reported as failures at once (a transport that is really wedged wedges many cases).
+//
+// The oracle is the same in every run.
 func c07Retry(scns []c07Scn, outs []c07Out) {
 	for round := 0; round < 3; round++ {
 		var idx []int
@@ -1578,7 +1704,7 @@ func c07Retry(scns []c07Scn, outs []c07Out) {
 			}
 		}
 		if len(idx) == 0 {
-			return
+			break
 		}
 		again := make([]c07Scn, len(idx))
 		for k, i := range idx {
@@ -1594,6 +1720,40 @@ func c07Retry(scns []c07Scn, outs []c07Out) {
 	for i := range outs {
 		if outs[i].Known != "" {
 			outs[i].Fails = append(outs[i].Fails, "Unsubscribe did not return in 4 consecutive runs (each time with the signature of go-stomp's lost wake-up)")
+		}
+	}
+	for i := range outs {
+		if outs[i].Retry == "" {
+			continue
+		}
+		first := outs[i].Retry
+		if c07Reruns >= c07MaxReruns {
+			Stat("stall-expired:reported-without-rerun")
+			outs[i].Fails = append(outs[i].Fails, first)
+			continue
+		}
+		Stat("stall-expired:rerun-alone")
+		if strings.HasPrefix(first, "a subscribed transport") {
+			Stat("stall-expired:kind:barrier-marker-late")
+		} else {
+			Stat("stall-expired:kind:unsubscribe-late")
+		}
+		c07ChildStall = c07StallRerun
+		re := c07Supervise([]c07Scn{scns[i]}, 1)
+		c07ChildStall = 0
+		outs[i] = re[0]
+		switch {
+		case outs[i].Retry != "":
+			c07Reruns++
+			Stat("stall-expired:rerun-expired-too")
+			outs[i].Fails = append(outs[i].Fails, outs[i].Retry)
+		case outs[i].Known != "":
+			Known(outs[i].Known, "go-stomp v2.1.4 Subscription.Unsubscribe missed the wake-up of a subscription that IS closed (re-run of a stalled case); goroutines: "+outs[i].Where)
+			outs[i].Fails = append(outs[i].Fails, first)
+		case len(outs[i].Fails) == 0:
+			Stat("stall-expired:rerun-clean(load)")
+		default:
+			c07Reruns++
 		}
 	}
 }
